@@ -58,7 +58,8 @@ Judge ==
     [] Line.ev = "Decode" ->
          (LET j == JDecode(Line.ty, Line.in, Line.dest, Line.obs) IN
                [j EXCEPT !.fail = @ \cup (IF Line.orig >= 0
-                                           THEN FailRoundTrip(Line.ty, cur.vals[Line.orig + 1], Line.in, Line.obs)
+                                           THEN FailRoundTrip(Line.ty, cur.vals[Line.orig + 1], Line.in, Line.obs,
+                                                              IF "hops" \in DOMAIN Line THEN Line.hops ELSE 1)
                                            ELSE {})])
     [] Line.ev = "Deep" -> JDeep(Line, DeepTrack(Line.ty, Line.pattern))
     [] Line.ev = "Hooks" -> JHooks(Line, spans)
@@ -76,7 +77,9 @@ Why(v) ==
   ELSE IF Line.ev = "Deep" THEN <<Line.pattern, ToString(Line.d), ToString(Line.levels), Line.obs.out>>
   ELSE IF Line.ev = "Decode" /\ Len(Line.in) > 2000 THEN <<"(large value: no diff computed)">>
   ELSE IF Line.ev = "Decode" /\ Line.obs.out = "ok" /\ "rt_val" \in v
-  THEN <<"rt">> \o DiffStruct(Line.ty, Line.obs.val, NormS(Line.ty, cur.vals[Line.orig + 1]))
+  THEN <<"rt">> \o (IF "hops" \in DOMAIN Line /\ Line.hops = 2
+                     THEN DiffStruct(Line.ty, N3(Line.ty, Line.obs.val), N3(Line.ty, cur.vals[Line.orig + 1]))
+                     ELSE DiffStruct(Line.ty, Line.obs.val, NormS(Line.ty, cur.vals[Line.orig + 1])))
   ELSE IF Line.ev = "Decode" /\ Line.obs.out = "ok" /\ "dec_val" \in v
   THEN <<"dec">> \o DiffStruct(Line.ty, Line.obs.val, Dec(Line.ty, Line.in, Line.dest).v)
   ELSE <<>>
